@@ -207,6 +207,14 @@ class Prover:
                     elif op == 'Eq':
                         lo, hi = max(lo, ca[0]), min(hi, ca[1])
             else:
+                # a predicate call on the subject: `x.is_ascii_digit()`
+                dd = _defs(self.body, discr['place']['l']) if discr.get('k') in ('copy', 'move') and not discr['place']['p'] else []
+                if len(dd) == 1 and dd[0][0] == 'call':
+                    cc = callee(dd[0][1])
+                    pp = (cc.get('resolved') or cc['path']) if cc else ''
+                    truth = (g[2] != 0) if kind == 'switch' else (True if g[2] == (0,) else False if g[2] == (1,) else None)
+                    if pp.split('::')[-1] == 'is_ascii_digit' and truth is True and dd[0][1]['args'] and _same_place(_root_place(self.body, dd[0][1]['args'][0]), subject_place):
+                        lo, hi = max(lo, 48), min(hi, 57)
                 pd = _root_place(self.body, discr)
                 if _same_place(pd, subject_place):
                     if kind == 'switch':
